@@ -20,7 +20,13 @@ from harness import colang2, progs2, tlc, v2corpus
 
 SPEC_DIR = "/verif/specs/colang2"
 FRAGMENT_FEATURES = {"when", "if", "while", "groups", "return", "abort", "vars", "start", "actions", "refs", "activate"}
-INVARIANTS = ("QueueEmpty", "Parked", "IndexIsScan", "DoneNoHeads")
+INVARIANTS = ("QueueEmpty", "Parked", "IndexIsScan", "DoneNoHeads",      # C09
+              "L1S", "L2S",                                                # C06 (keeper, action life-cycle monitor)
+              "NoFuelOut")                                                 # C10 (no recursion budget exhausted)
+PROPERTIES = ("L2bS", "L2cS",                                              # C06 (stop-on-end, shared actions)
+              "EventBound")                                                # C10 (internal events per call linear in program size x instances)
+SERVES = {"QueueEmpty": "C09", "Parked": "C09", "IndexIsScan": "C09", "DoneNoHeads": "C09", "L1S": "C06", "L2S": "C06", "L2bS": "C06", "L2cS": "C06",
+          "NoFuelOut": "C10", "EventBound": "C10"}
 
 
 def val(v):
@@ -35,7 +41,7 @@ def val(v):
     raise ValueError(v)
 
 
-def explore(ctx, nprog, maxhist, maxpick, seed_offset=0):
+def explore(ctx, nprog, maxhist, maxpick, seed_offset=0, counter=None):
     progs = progs2.generated(ctx.seed + 77 + seed_offset, nprog, features=FRAGMENT_FEATURES)
     prepared = []
     outside = 0
@@ -55,7 +61,7 @@ def explore(ctx, nprog, maxhist, maxpick, seed_offset=0):
         with open(pf, "w") as f:
             json.dump(prog, f)
         cfg = ("CONSTANTS MaxHist = %d\nMaxPick = %d\nSPECIFICATION Spec\nVIEW SView\nINVARIANT EmitState\n" % (maxhist, maxpick)
-               + "".join("INVARIANT %s\n" % x for x in INVARIANTS))
+               + "".join("INVARIANT %s\n" % x for x in INVARIANTS) + "".join("PROPERTY %s\n" % x for x in PROPERTIES))
         return tlc.run("MC_ColangSM.tla", cfg, wd, spec_dirs=[SPEC_DIR], env={"PROG_FILE": pf}, workers=1, timeout=1800, expect_fail=True)
 
     with ThreadPoolExecutor(16) as ex:
@@ -64,9 +70,10 @@ def explore(ctx, nprog, maxhist, maxpick, seed_offset=0):
     sm = colang2.sm
     created = _log_action_creation()
     out = {"programs": len(prepared), "outside_fragment": outside, "states": 0, "transitions": 0, "compared": 0, "drift": 0,
-           "spec_violations": [], "traces": [], "drift_samples": [], "errors": []}
+           "spec_violations": [], "traces": [], "drift_samples": [], "errors": [], "bounds": []}
     for (i, src, prog, alphabet), r in zip(prepared, results):
-        if r.errors:
+        hard = [x for x in r.errors if "The behavior up to this point" not in x and "counter-example" not in x]
+        if hard or (not r.violated and r.rc not in (0,)):
             out["errors"].append({"program": src, "error": r.errors[:2], "tail": r.out[-600:]})
             continue
         out["states"] += r.distinct
@@ -75,6 +82,7 @@ def explore(ctx, nprog, maxhist, maxpick, seed_offset=0):
             out["spec_violations"].append({"invariant": inv, "program": src, "counterexample": tlc.counterexample(r.out)[:3000]})
         del created[:]
         base = colang2.start_main(colang2.compile_program(src))
+        nelements = sum(len(c.elements) for c in base.flow_configs.values())
         base_created = list(created)
         first = v2corpus.step_record({"type": "StartFlow", "flow_id": "main"}, base)
         for p in r.printed:
@@ -91,8 +99,13 @@ def explore(ctx, nprog, maxhist, maxpick, seed_offset=0):
                 else:
                     uid = created[act - 1][0]
                     ev = {"type": created[act - 1][1] + ("Started" if ai == -1 else "Finished"), "action_uid": uid}
+                if counter is not None:
+                    counter["n"] = 0
+                    live = sum(1 for f in s.flow_states.values() if f.status.name in ("WAITING", "STARTING", "STARTED"))
                 try:
                     s = sm.run_to_completion(s, ev)
+                    if counter is not None:
+                        out["bounds"].append({"elements": nelements, "instances": live, "steps": counter["n"], "ev": ev.get("type"), "origin": "colangsm:%d" % i})
                 except Exception as ex:
                     err = "%s: %s" % (type(ex).__name__, ex)
                     break
